@@ -23,6 +23,9 @@ type c07Req struct {
 	Codes    []int  `json:"codes,omitempty"`    // SUBACK return codes the broker will send
 	WrongLen int    `json:"wrongLen,omitempty"` // != 0: the SUBACK carries len(filters)+WrongLen codes
 	Cancel   bool   `json:"cancel,omitempty"`   // the caller gives up (context cancelled) before any answer; the answers still arrive, late
+	// CancelWithRec (pub2 only): PUBREC is sent and the caller's context is cancelled at the same moment. Whatever the
+	// select picks, the call cannot succeed: no PUBCOMP was ever sent.
+	CancelWithRec bool `json:"cancelWithRec,omitempty"`
 }
 
 type c07Item struct {
@@ -37,6 +40,9 @@ type c07Case struct {
 	Script []c07Item `json:"script"`
 	// WrapIn > 0: the identifier counter is set so that it wraps (0xFFFF -> 1) within the first WrapIn allocations
 	WrapIn int `json:"wrapIn,omitempty"`
+	// DisconnectAt >= 0: before script item DisconnectAt the application calls Disconnect; every request whose own
+	// acknowledgement has not been sent by then must fail
+	DisconnectAt int `json:"disconnectAt"`
 }
 
 var c07AckTypes = []int{rtPubAck, rtPubRec, rtPubComp, rtSubAck, rtUnsubAck}
@@ -52,6 +58,9 @@ func c07Gen(rt *rapid.T) c07Case {
 			}
 		}
 		q.Cancel = rapid.IntRange(0, 5).Draw(rt, "cancel") == 0
+		if q.Kind == "pub2" && !q.Cancel {
+			q.CancelWithRec = rapid.IntRange(0, 3).Draw(rt, "cancelWithRec") == 0
+		}
 		return q
 	}), 1, 8).Draw(rt, "reqs")
 	// at most one wrong-length SUBACK, and it is answered last (the client then drops the link)
@@ -119,6 +128,10 @@ func c07Gen(rt *rapid.T) c07Case {
 		}
 	}
 	c.Script = script
+	c.DisconnectAt = -1
+	if rapid.IntRange(0, 4).Draw(rt, "disconnect") == 0 {
+		c.DisconnectAt = rapid.IntRange(0, len(script)).Draw(rt, "disconnectAt")
+	}
 	return c
 }
 
@@ -246,7 +259,7 @@ func c07Run(tb rapid.TB, c c07Case) {
 		mu.Lock()
 		defer mu.Unlock()
 		for i, s := range st {
-			if s.returned && s.finalSeq == 0 && !c.Reqs[i].Cancel {
+			if s.returned && s.finalSeq == 0 && !c.Reqs[i].Cancel && !c.Reqs[i].CancelWithRec {
 				fail("request %d (%s, id %d) returned (err=%v) %s although its own acknowledgement was never sent", i, c.Reqs[i].Kind, s.id, s.err, after)
 			}
 		}
@@ -262,7 +275,12 @@ func c07Run(tb rapid.TB, c c07Case) {
 
 	foreignCount := 0
 	outstandingAtFirstAck := -1
-	for _, it := range c.Script {
+	disconnected := false
+	for si, it := range c.Script {
+		if c.DisconnectAt == si {
+			disconnected = true
+			break
+		}
 		for y := 0; y < it.Yields; y++ {
 			runtime.Gosched()
 		}
@@ -273,6 +291,24 @@ func c07Run(tb rapid.TB, c c07Case) {
 				outstandingAtFirstAck = n
 			}
 			switch {
+			case q.Kind == "pub2" && q.CancelWithRec && s.ackStage == 0:
+				s.recSeq = r.peer.send(refPacket{Type: rtPubRec, ID: s.id})
+				rcancel[it.Req]()
+				s.ackStage = 1
+				s.sentTypes = append(s.sentTypes, rtPubRec)
+				ir := it.Req
+				if !vWaitUntil(20*time.Second, func() bool { mu.Lock(); defer mu.Unlock(); return st[ir].returned }) {
+					fail("request %d (pub2) did not return after its context was cancelled", ir)
+				}
+				mu.Lock()
+				e := s.err
+				s.finalSeq = -1
+				mu.Unlock()
+				if e == nil {
+					fail("request %d (pub2, id %d) returned success although only PUBREC was ever sent (context cancelled at that moment): no PUBCOMP exists", ir, s.id)
+				}
+			case q.Kind == "pub2" && q.CancelWithRec:
+				r.peer.send(refPacket{Type: rtPubComp, ID: s.id}) // late, nobody waits
 			case q.Kind == "pub2" && s.ackStage == 0:
 				s.recSeq = r.peer.send(refPacket{Type: rtPubRec, ID: s.id})
 				s.ackStage = 1
@@ -366,6 +402,31 @@ func c07Run(tb rapid.TB, c c07Case) {
 		}
 		checkBlocked(fmt.Sprintf("after foreign item %+v", it))
 	}
+	if disconnected || c.DisconnectAt == len(c.Script) {
+		// the application disconnects while some requests still wait: those must fail, never report success
+		dctx, dc := context.WithTimeout(context.Background(), 20*time.Second)
+		derr := r.cli.Disconnect(dctx)
+		dc()
+		dd := make(chan struct{})
+		go func() { wg.Wait(); close(dd) }()
+		select {
+		case <-dd:
+		case <-time.After(20 * time.Second):
+			fail("requests still blocked 20 s after Disconnect (returned %v); goroutines:\n%s", derr, vGoroutineDump())
+		}
+		nPending := 0
+		for i, s := range st {
+			if s.finalSeq == 0 {
+				nPending++
+				if s.err == nil {
+					fail("request %d (%s, id %d) returned success after Disconnect although its acknowledgement was never sent", i, c.Reqs[i].Kind, s.id)
+				}
+			}
+		}
+		labels := []string{fmt.Sprintf("reqs:%d", n), fmt.Sprintf("disconnect-with-pending:%d", minInt(nPending, 4))}
+		vCount("C07", n >= 2 && nPending >= 1, vJSON(c), labels, func() interface{} { return c })
+		return
+	}
 	donech := make(chan struct{})
 	go func() { wg.Wait(); close(donech) }()
 	select {
@@ -385,7 +446,7 @@ func c07Run(tb rapid.TB, c c07Case) {
 	wrongLenSeen := false
 	for i, s := range st {
 		q := c.Reqs[i]
-		if q.Cancel {
+		if q.Cancel || q.CancelWithRec {
 			continue
 		}
 		if s.finalSeq == 0 || s.retSeq < s.finalSeq {
